@@ -118,7 +118,7 @@ Definition enc_editor (e : EditorState) : list line :=
     kv_line (ekey EGridSize) (TInt (ed_grid_size e));
     kv_line (ekey ETimelineZoom) (TF64 (ed_timeline_zoom e)) ].
 
-(* ---------- encode_metadata (never writes BeatmapID / BeatmapSetID) ---------- *)
+(* ---------- encode_metadata (the two ids are written when positive) ---------- *)
 
 Definition is_empty (s : str) : bool := match s with [] => true | _ => false end.
 Definition opt_text_line (key : str) (v : str) : list line :=
@@ -133,7 +133,9 @@ Definition enc_metadata (m : MetadataState) : list line :=
   [ kv_line (mkey MCreator) (TStr (m_creator m));
     kv_line (mkey MVersion) (TStr (m_version m)) ] ++
   opt_text_line (mkey MSource) (m_source m) ++
-  opt_text_line (mkey MTags) (m_tags m).
+  opt_text_line (mkey MTags) (m_tags m) ++
+  (if 0 <? m_beatmap_id m then [kv_line (mkey MBeatmapID) (TInt (m_beatmap_id m))] else []) ++
+  (if 0 <? m_beatmap_set_id m then [kv_line (mkey MBeatmapSetID) (TInt (m_beatmap_set_id m))] else []).
 
 (* ---------- encode_difficulty ---------- *)
 
@@ -301,7 +303,9 @@ Fixpoint path_loop_toks (pos : Pos) (all : list PCP) (i : nat) (rest : list PCP)
                 | _, _ => nes0          (* unreachable: i - 1, i - 2 < len *)
                 end
               else nes0 in
-            if nes then (path_type_toks path_type ++ [sep], Some path_type)
+            (* `type_separator`: ',' only when the path has a single control point *)
+            let tsep := if (length all =? 1)%nat then t_comma else t_pipe in
+            if nes then (path_type_toks path_type ++ [tsep], Some path_type)
             else (point_toks pos point ++ [t_pipe], last_type)
         end in
       typed ++
@@ -334,7 +338,7 @@ Fixpoint node_bank_toks (n : nat) (i : nat) (nodes : list (list HitSampleInfo)) 
   end.
 
 (* one slider event, as far as encode.rs looks at it *)
-Record EncEvent := mkEv { ev_kind : Z; ev_span_idx : Z; ev_time : F64 }.
+Record EncEvent := mkEncEv { ee_kind : Z; ee_span_idx : Z; ee_time : F64 }.
 (* SliderEventType as index: Head, Tick, Repeat, LastTick, Tail *)
 Definition evk_head : Z := 0.
 Definition evk_tick : Z := 1.
@@ -475,11 +479,11 @@ Section Enc.
 
   (* GameMode::Osu arm *)
   Definition osu_event_samples (s : Slider) (hs : list HitSampleInfo) (e : EncEvent) : list SamplePoint :=
-    if ev_kind e =? evk_head then collect_sample (node_or (sl_node_samples s) 0 hs) (ev_time e)
-    else if ev_kind e =? evk_repeat then
-      collect_sample (node_or (sl_node_samples s) (ev_span_idx e + 1) hs) (ev_time e)
-    else if ev_kind e =? evk_tail then
-      collect_sample (node_or (sl_node_samples s) (sl_repeat_count s + 1) hs) (ev_time e)
+    if ee_kind e =? evk_head then collect_sample (node_or (sl_node_samples s) 0 hs) (ee_time e)
+    else if ee_kind e =? evk_repeat then
+      collect_sample (node_or (sl_node_samples s) (ee_span_idx e + 1) hs) (ee_time e)
+    else if ee_kind e =? evk_tail then
+      collect_sample (node_or (sl_node_samples s) (sl_repeat_count s + 1) hs) (ee_time e)
     else [].
 
   (* GameMode::Catch arm, with its running node_idx *)
@@ -488,8 +492,8 @@ Section Enc.
     match evs with
     | [] => []
     | e :: r =>
-        if (ev_kind e =? evk_head) || (ev_kind e =? evk_repeat) || (ev_kind e =? evk_tail) then
-          collect_sample (node_or (sl_node_samples s) node_idx hs) (ev_time e) ++
+        if (ee_kind e =? evk_head) || (ee_kind e =? evk_repeat) || (ee_kind e =? evk_tail) then
+          collect_sample (node_or (sl_node_samples s) node_idx hs) (ee_time e) ++
           catch_event_samples s hs (node_idx + 1) r
         else catch_event_samples s hs node_idx r
     end.
